@@ -403,7 +403,7 @@ func runCase(seed uint64, idx int, prop string, thorough bool) caseOut {
 			depth = 300 + rng.Intn(1701)
 		}
 		r = runDeep(rng, depth, idx%2 == 1)
-	case prop == "C06" && (idx == 4 || idx == 5 || idx == 6 || (thorough && idx >= 26 && idx < 40)):
+	case prop == "C06" && (idx == 4 || idx == 5 || idx == 6 || (idx >= 8 && idx < 14) || (thorough && idx >= 26 && idx < 40)):
 		r = runReadOverlap(rng)
 	case prop == "C11" && (idx == 3 || idx == 5 || idx == 9 || idx == 11 || (thorough && idx >= 20 && idx < 36 && idx%4 != 2)):
 		r = runSessAllKindsFault(rng, idx%4)
